@@ -37,6 +37,9 @@ NEEDS = {
  "C11-1": "non-polygon features and two or more tile matrices (one wrapper reused: data race)",
  "C11-2": "an empty table (wg.Add moved into the goroutine)",
  "C11-3": "a target busy when the router has a feature for it (send moved to a helper goroutine)",
+ "C12-3": "more features than the page size (the feature that arrives while the page is full is never appended)",
+ "C12-4": "at least as many features as the page size (the page buffer is never emptied: features[0:] instead of features[:0])",
+ "C12-5": "a feature count that is a positive multiple of the page size (the last page is written again when the channel closes)",
  "C05-4": "a hole with no surrounding shell (promoted to a polygon of its own without being reversed)",
  "C05-5": "a ring whose snapped version is [a b a] (closing vertex only stripped for rings longer than 3)",
  "C05-6": "a polygon that partly collapses, KeepPointsAndLines off (the option is no longer consulted when collecting points and lines)",
@@ -49,6 +52,8 @@ NEEDS = {
  "C06-3": "a zig-zag long enough for a second corpus expansion (corpus grows by 3 segments, its end marker by 2)",
 }
 UNDETECTABLE = {
+ "C12-1": "the change is in writeFeatures (extent of a page), behind database/sql and SQLite: outside the verified subset; the C12 claim covers the paging clause of WriteFeatures only and says so",
+ "C12-2": "the change is in the table / geometry-type handling of the database side, outside the verified subset; the C12 claim covers the paging clause of WriteFeatures only and says so",
  "C06-1": "produced and confirmed against the tree before the repair of F9, where the change made SnapPolygon panic (slice bounds out of range in RemoveSequences) and the bounded stand-in ring-assembly-small-alphabet caught it with a failing input; since the repair (fa24396) RemoveSequences tolerates the overlapping / out-of-range removal range the change produces, SnapPolygon returns normally, and what is left is a different de-duplication result (area / crossing properties C18, C01, not applicable here): no longer a violation of C06 on the current tree",
  "C06-2": "produced and confirmed against the tree before the repair of F9, where the change made SnapPolygon panic (slice bounds out of range in RemoveSequences) and the bounded stand-in ring-assembly-small-alphabet caught it with a failing input; since the repair (fa24396) RemoveSequences tolerates the overlapping / out-of-range removal range the change produces, SnapPolygon returns normally, and what is left is a different de-duplication result (area / crossing properties C18, C01, not applicable here): no longer a violation of C06 on the current tree",
  "C06-3": "produced and confirmed against the tree before the repair of F9, where the change made SnapPolygon panic (slice bounds out of range in RemoveSequences) and the bounded stand-in ring-assembly-small-alphabet caught it with a failing input; since the repair (fa24396) RemoveSequences tolerates the overlapping / out-of-range removal range the change produces, SnapPolygon returns normally, and what is left is a different de-duplication result (area / crossing properties C18, C01, not applicable here): no longer a violation of C06 on the current tree",
